@@ -571,7 +571,8 @@ fn gen_table(r: &mut Lcg, depth: u32, tok: &mut u32) -> String {
                 let k = r.below(CELLS.len() as u64) as usize;
                 if CELLS[k].is_empty() { String::new() } else { *tok += 1; format!("{}{}", CELLS[k], tok) }
             };
-            if span == 1 && !content.is_empty() { col_has_single[c] = true; }
+            // a nested table may render to nothing: it does not count as content of its column
+            if span == 1 && !content.is_empty() && !content.starts_with("<table") { col_has_single[c] = true; }
             if span > 1 && content.is_empty() { for k in c..c + span { col_needs[k] = true; } }
             row.push((span, content));
             c += span;
